@@ -588,6 +588,9 @@ pub fn observe_rdata(rd: &RData) -> ARData {
     let n = |x: &simple_dns::Name| V::Name(oname(x));
     let (code, fields): (u16, Vec<Val>) = match rd {
         RData::Empty(t) => return ARData::Empty { code: u16::from(*t) },
+        // zero octets of opaque data and "no RDATA" are one and the same record on the wire and in the model
+        // (which variant the library uses for it is not something any statement fixes)
+        RData::NULL(code, d) if d.get_data().is_empty() => return ARData::Empty { code: *code },
         RData::NULL(code, d) => {
             return ARData::Unknown {
                 code: *code,
